@@ -328,27 +328,30 @@ def oracle(case):
     # one object, re-used: after the accessors were evaluated, the attributes are changed through the setters; the answers must be
     # those of the NEW attributes (nothing computed earlier may be remembered)
     if all(V.get(a) is not None and math.isfinite(V[a]) for a in KIN if a in V) and case.get("kind") != "unset":
-        p = build(V, "setters")
-        for m in methods:
-            call(p, m)
-        V2 = dict(V)
-        for a, f in (("px", 2.0), ("py", -0.5), ("pz", 3.0), ("E", 4.0), ("t", 2.0), ("z", 0.5), ("x", -2.0), ("y", 0.25)):
-            if V2.get(a) is not None:
-                V2[a] = V2[a] * f
-        try:
-            with warnings.catch_warnings(), np.errstate(all="ignore"):
-                warnings.simplefilter("ignore")
-                for a in ("px", "py", "pz", "E", "t", "z", "x", "y"):
-                    if V2.get(a) is not None:
-                        setattr(p, a, V2[a])
-            fresh = build(V2, "setters")
-            for m in methods:
-                a1, b1 = call(p, m), call(fresh, m)
-                if json.dumps(a1) != json.dumps(b1) and not (a1[0] == "nan" and b1[0] == "nan"):
-                    return (f"{m}() after the attributes of ONE particle object were changed through the setters to {V2} returns {a1}; a particle "
-                            f"built with these attributes returns {b1}")
-        except Exception:
-            pass
+        FACT = (("px", 2.0), ("py", -0.5), ("pz", 3.0), ("E", 4.0), ("t", 2.0), ("z", 0.5), ("x", -2.0), ("y", 0.25))
+        # all attributes at once, then every attribute ALONE (a setter that forgets what another setter would have cleared)
+        for changed in [tuple(a for a, _ in FACT)] + [(a,) for a, _ in FACT]:
+            try:
+                with warnings.catch_warnings(), np.errstate(all="ignore"):
+                    warnings.simplefilter("ignore")
+                    p = build(V, "setters")
+                    for m in methods:
+                        call(p, m)
+                    V2 = dict(V)
+                    for a, f in FACT:
+                        if a in changed and V2.get(a) is not None:
+                            V2[a] = V2[a] * f
+                    for a in changed:
+                        if V2.get(a) is not None:
+                            setattr(p, a, V2[a])
+                    fresh = build(V2, "setters")
+                    for m in methods:
+                        a1, b1 = call(p, m), call(fresh, m)
+                        if json.dumps(a1) != json.dumps(b1) and not (a1[0] == "nan" and b1[0] == "nan"):
+                            return (f"{m}() after the attributes {list(changed)} of ONE particle object were changed through the setters to {V2} returns {a1}; a particle "
+                                    f"built with these attributes returns {b1}")
+            except Exception:
+                pass
     # copies: a particle obtained by copy.deepcopy / copy.copy / a pickle round trip has the same attributes and must give the same
     # answers - also when other particles (with other momenta) lived and died before at the addresses the copies land on
     import copy as _copy, gc as _gc, pickle as _pickle
